@@ -71,6 +71,20 @@ func genC19(r *Rng, k int, tier string) *RunSpec {
 		}
 	}
 	sp := mk("C19", st, reqs...)
+	// the signer itself fails for some request (one fault per run at most)
+	if r.Intn(5) == 0 {
+		rq := Pick(r, reqs)
+		switch rq.Kind {
+		case "txBatch":
+			if n := len(rq.Recipients); n > 0 {
+				sp.Faults = append(sp.Faults, FaultSpec{Site: fmt.Sprintf("%s.%d|signer.post|1", rq.ID, 1+r.Intn(n)), Kind: "sign_err"})
+			}
+		case "txDeliver":
+			sp.Faults = append(sp.Faults, FaultSpec{Site: rq.ID + "|signer.post|1", Kind: "sign_err"})
+		default:
+			sp.Faults = append(sp.Faults, FaultSpec{Site: rq.ID + "|signer.get|1", Kind: "sign_err"})
+		}
+	}
 	switch r.Intn(4) {
 	case 0:
 		sp.Sched = SchedSpec{Strategy: "fifo"}
@@ -115,12 +129,25 @@ func oracleC19(c *DriveCtx, res *Result) {
 				want[rc]++
 			}
 			got := map[string]int{}
-			var failed []string
+			var failed, httpFailed []string
+			// a recipient whose request the signer refused is a failed attempt that never reaches the HTTP client
+			for _, f := range res.Spec.Faults {
+				var idx int
+				if f.Kind == "sign_err" && strings.HasPrefix(f.Site, t.ID+".") {
+					if _, err := fmt.Sscanf(strings.TrimPrefix(f.Site, t.ID+"."), "%d|", &idx); err == nil && idx >= 1 && idx <= len(t.Req.Recipients) {
+						u := t.Req.Recipients[idx-1]
+						want[u]--
+						failed = append(failed, u)
+						s.probe("c19-signer-failure-in-batch")
+					}
+				}
+			}
 			for _, at := range w.Attempts {
 				if strings.HasPrefix(at.Task, t.ID+".") || at.Task == t.ID {
 					got[at.URL]++
 					if !fateOK(at.Fate, true) {
 						failed = append(failed, at.URL)
+						httpFailed = append(httpFailed, at.URL)
 					}
 				}
 			}
@@ -139,7 +166,7 @@ func oracleC19(c *DriveCtx, res *Result) {
 			}
 			if t.Err != nil {
 				nf := map[string]int{}
-				for _, u := range failed {
+				for _, u := range httpFailed {
 					nf[u]++
 				}
 				for _, u := range sortedKeys(nf) {
@@ -153,12 +180,24 @@ func oracleC19(c *DriveCtx, res *Result) {
 			}
 		case "txDeliver":
 			fate := w.spec.Fates[t.ID+"#1"]
+			if taskFaulted(res, t) {
+				if t.Err == nil {
+					s.violate("C19", "signer-error-swallowed", "Deliver", "the signer failed and Deliver reported success")
+				}
+				continue
+			}
 			if (t.Err == nil) != fateOK(fate, true) {
 				s.violate("C19", "deliver-status-classification", "Deliver", fmt.Sprintf("Deliver with response %q returned err=%v", fate, t.Err))
 			}
 		case "txDeref":
 			fate := w.spec.Fates[t.ID+"#1"]
 			body, _ := t.Result.(string)
+			if taskFaulted(res, t) {
+				if t.Err == nil {
+					s.violate("C19", "signer-error-swallowed", "Dereference", "the signer failed and Dereference reported success")
+				}
+				continue
+			}
 			if (t.Err == nil) != fateOK(fate, false) {
 				s.violate("C19", "dereference-status-classification", "Dereference", fmt.Sprintf("Dereference with response %q returned err=%v", fate, t.Err))
 			}
